@@ -58,6 +58,7 @@ def run(tier, seed):
             if wn:
                 ri.append((sp, dict(o, presim=1, presim_cut=k + 1, res_absence={wn[0]: [k]})))  # ... after a personal absence step of the first worker
     ri += stepcheck.resumed_edit_items(("worker-absence-append-3",), ks=(1, 2, 3))
+    ri += stepcheck.resumed_edit_items(("move-worker", "move-facility-in", "add-component"), ks=(1, 2))  # people and machines transferred, a component added at a stop while work is in progress
     # a checkpoint written at step k and read back - into a new project, and into the same project object - before the run goes on
     dup = F.with_teams({"tasks": [{"name": "T0", "work": 3.0}, {"name": "T1", "work": 2.0}], "links": [[0, 1, "FS"]]}, "POOL1")
     dup["teams"][0]["targets"] = [0, 0, 1]  # the first task was linked to the team twice
